@@ -96,7 +96,7 @@ class Interp(EngineBase):
     def concat(self, a, b):
         if isinstance(a, str) and isinstance(b, str):
             return a + b
-        return Sym('str', z3.Function('concat', I, I, I)(self.as_int_term(a), self.as_int_term(b)))
+        return Sym('str', z3.Function('str_concat', I, I, I)(self.as_int_term(a), self.as_int_term(b)))
 
     def ev_Tuple(self, e):
         return TupleV([self.ev(x) for x in e.elts])
@@ -338,10 +338,12 @@ class Interp(EngineBase):
                 r = Sym('ref', z3.Function('nx_nodeattr', I, I, I)(g, x), 'NodeAttr')
                 self.st.assume(r.t > 0)
                 return r
-            p = z3.Int('nx_p')
+            p = z3.Int(fresh_name('nxp'))
             EA = z3.Function('nx_edgeattr', I, I, I, I)
-            d = DictObj(z3.Lambda([p], EDGE(g, p, x)), z3.Function('nx_indeg', I, I, I)(g, x), 'ref',
-                        vals=z3.Lambda([p], EA(g, p, x)), vcls='EdgeAttr')
+            PK = z3.Function('nx_pred_keys', I, I, BoolArr)
+            PV = z3.Function('nx_pred_vals', I, I, IntArr)
+            self.st.assume(z3.ForAll([p], z3.And(z3.Select(PK(g, x), p) == EDGE(g, p, x), z3.Select(PV(g, x), p) == EA(g, p, x))))
+            d = DictObj(PK(g, x), z3.Function('nx_indeg', I, I, I)(g, x), 'ref', vals=PV(g, x), vcls='EdgeAttr')
             d.frozen = True
             q = z3.Int(fresh_name('eq'))
             self.st.assume(z3.ForAll([q], z3.Implies(EDGE(g, q, x), EA(g, q, x) > 0)))
